@@ -17,7 +17,18 @@ import (
 )
 
 // ---------------------------------------------------------------------------------------------------
-// keeper-level fixture: real application, one app, assets ubase / uquote, one pair; every actor funded.
+// keeper-level fixture: the real application with pairwise DISTINCT ids, so that a handler that picks the wrong id
+// variable (pool id for pair id, app id for pair id, ...) cannot hide behind "everything is 1":
+//
+//	app 1 "other"  : a foreign app with pair 1 = ubase/uquote (its pools get the same pool ids as the pools under test;
+//	                 their shares are held by the attacker actor)
+//	app 2 "dex"    : the app under test
+//	   pair 1 = ubase/uthird   (second real pair: shares the base coin with the pair under test; exercised by kfull)
+//	   pair 2 = uthird/uquote  (shares the quote coin with the pair under test)
+//	   pair 3 = ubase/uquote   (the pair under test)
+//
+// Pools are created on top of this by the drivers (shares: ranged pools 1 and 2 and basic pool 3 in pair 3, so pool id
+// != pair id != app id; matching: pool 1 in pair 3, pool 2 in pair 1).
 // Messages go through the message router (sim.Deliver); batches are ended with the liquidity module's
 // own EndBlocker / BeginBlocker (as the repository's tests do), on a context whose header the driver sets.
 // ---------------------------------------------------------------------------------------------------
@@ -25,13 +36,20 @@ import (
 const (
 	baseDenom  = "ubase"
 	quoteDenom = "uquote"
-	nActors    = 24
+	thirdDenom = "uthird"
+	nActors    = 28
+	attacker   = 20          // creates the foreign app's pools and holds their shares
+	sink       = nActors - 1 // source / sink of injected reserves
 )
 
 type kfix struct {
-	e     *sim.Env
-	appID uint64
-	pair  ltypes.Pair
+	e         *sim.Env
+	appID     uint64      // app under test (2)
+	otherApp  uint64      // foreign app (1)
+	pair      ltypes.Pair // pair under test: app 2 / pair 3 (ubase/uquote)
+	side      ltypes.Pair // app 2 / pair 1 (ubase/uthird)
+	decoy     ltypes.Pair // app 2 / pair 2 (uthird/uquote)
+	otherPair ltypes.Pair // app 1 / pair 1 (ubase/uquote)
 }
 
 func actor(i int) string { return fmt.Sprintf("a%d", i) }
@@ -40,31 +58,42 @@ func newFix() *kfix {
 	huge, _ := new(big.Int).SetString("1000000000000000000000000000000000000000000000", 10) // 10^45
 	var funds []sim.Fund
 	for i := 0; i < nActors; i++ {
-		funds = append(funds, sim.Fund{Name: actor(i), Coins: sdk.NewCoins(
-			sdk.NewCoin(baseDenom, sdkmath.NewIntFromBigInt(huge)), sdk.NewCoin(quoteDenom, sdkmath.NewIntFromBigInt(huge)),
+		h := sdkmath.NewIntFromBigInt(huge)
+		funds = append(funds, sim.Fund{Name: actor(i), Coins: sdk.NewCoins(sdk.NewCoin(baseDenom, h), sdk.NewCoin(quoteDenom, h), sdk.NewCoin(thirdDenom, h),
 			sdk.NewCoin("ucmdx", sdkmath.NewInt(1000000000000000)))})
 	}
 	e := sim.New(funds)
-	must(e.App.AssetKeeper.AddAppRecords(e.Ctx, assettypes.AppData{Name: "dex", ShortName: "dex", MinGovDeposit: sdkmath.ZeroInt(), GovTimeInSeconds: 0, GenesisToken: []assettypes.MintGenesisToken{}}))
-	var appID uint64
+	appIDs := map[string]uint64{}
+	for _, name := range []string{"other", "dex"} {
+		must(e.App.AssetKeeper.AddAppRecords(e.Ctx, assettypes.AppData{Name: name, ShortName: name, MinGovDeposit: sdkmath.ZeroInt(), GovTimeInSeconds: 0, GenesisToken: []assettypes.MintGenesisToken{}}))
+	}
 	apps, _ := e.App.AssetKeeper.GetApps(e.Ctx)
 	for _, a := range apps {
-		if a.Name == "dex" {
-			appID = a.Id
-		}
+		appIDs[a.Name] = a.Id
 	}
-	for _, a := range []struct{ n, d string }{{"BASE", baseDenom}, {"QUOTE", quoteDenom}, {"CMDX", "ucmdx"}} {
+	for _, a := range []struct{ n, d string }{{"BASE", baseDenom}, {"QUOTE", quoteDenom}, {"THIRD", thirdDenom}, {"CMDX", "ucmdx"}} {
 		must(e.App.AssetKeeper.AddAssetRecords(e.Ctx, assettypes.Asset{Name: a.n, Denom: a.d, Decimals: sdkmath.NewInt(1000000), IsOnChain: true}))
 	}
-	r := e.Deliver(ltypes.NewMsgCreatePair(appID, e.Users[actor(0)], baseDenom, quoteDenom))
-	if !r.OK {
-		panic("create pair: " + r.Err)
+	f := &kfix{e: e, appID: appIDs["dex"], otherApp: appIDs["other"]}
+	mk := func(app uint64, b, q string) ltypes.Pair {
+		r := e.Deliver(ltypes.NewMsgCreatePair(app, e.Users[actor(0)], b, q))
+		if !r.OK {
+			panic("create pair: " + r.Err)
+		}
+		p, found := e.App.LiquidityKeeper.GetPairByDenoms(e.Ctx, app, b, q)
+		if !found {
+			panic("pair not found")
+		}
+		return p
 	}
-	pair, found := e.App.LiquidityKeeper.GetPair(e.Ctx, appID, 1)
-	if !found {
-		panic("pair not found")
+	f.otherPair = mk(f.otherApp, baseDenom, quoteDenom)
+	f.side = mk(f.appID, baseDenom, thirdDenom)
+	f.decoy = mk(f.appID, thirdDenom, quoteDenom)
+	f.pair = mk(f.appID, baseDenom, quoteDenom)
+	if f.otherApp != 1 || f.appID != 2 || f.side.Id != 1 || f.decoy.Id != 2 || f.pair.Id != 3 || f.otherPair.Id != 1 {
+		panic(fmt.Sprintf("fixture ids not as designed: apps %d %d pairs %d %d %d %d", f.otherApp, f.appID, f.side.Id, f.decoy.Id, f.pair.Id, f.otherPair.Id))
 	}
-	return &kfix{e: e, appID: appID, pair: pair}
+	return f
 }
 
 func must(err error) {
@@ -107,49 +136,70 @@ func (f *kfix) setParams(keys, vals []string) {
 	must(f.e.App.LiquidityKeeper.UpdateGenericParams(f.e.Ctx, f.appID, keys, vals))
 }
 
-func (f *kfix) createPool(creator int, x, y *big.Int) (ltypes.Pool, sim.Result) {
-	r := f.e.Deliver(ltypes.NewMsgCreatePool(f.appID, f.e.Users[actor(creator)], f.pair.Id,
-		sdk.NewCoins(sdk.NewCoin(quoteDenom, sdkmath.NewIntFromBigInt(x)), sdk.NewCoin(baseDenom, sdkmath.NewIntFromBigInt(y)))))
+func (f *kfix) lastPool(app uint64) ltypes.Pool {
+	id := f.e.App.LiquidityKeeper.GetLastPoolID(f.e.Ctx, app)
+	p, _ := f.e.App.LiquidityKeeper.GetPool(f.e.Ctx, app, id)
+	return p
+}
+
+// createPoolIn: MsgCreatePool of a basic pool in the given pair (x = quote coin, y = base coin of that pair).
+func (f *kfix) createPoolIn(app uint64, pair ltypes.Pair, creator int, x, y *big.Int) (ltypes.Pool, sim.Result) {
+	r := f.e.Deliver(ltypes.NewMsgCreatePool(app, f.e.Users[actor(creator)], pair.Id,
+		sdk.NewCoins(sdk.NewCoin(pair.QuoteCoinDenom, sdkmath.NewIntFromBigInt(x)), sdk.NewCoin(pair.BaseCoinDenom, sdkmath.NewIntFromBigInt(y)))))
 	if !r.OK {
 		return ltypes.Pool{}, r
 	}
-	id := f.e.App.LiquidityKeeper.GetLastPoolID(f.e.Ctx, f.appID)
-	p, _ := f.e.App.LiquidityKeeper.GetPool(f.e.Ctx, f.appID, id)
-	return p, r
+	return f.lastPool(app), r
+}
+
+func (f *kfix) createRangedIn(app uint64, pair ltypes.Pair, creator int, x, y *big.Int, mn, mx, init sdkmath.LegacyDec) (ltypes.Pool, sim.Result) {
+	coins := sdk.Coins{}
+	if x.Sign() > 0 {
+		coins = coins.Add(sdk.NewCoin(pair.QuoteCoinDenom, sdkmath.NewIntFromBigInt(x)))
+	}
+	if y.Sign() > 0 {
+		coins = coins.Add(sdk.NewCoin(pair.BaseCoinDenom, sdkmath.NewIntFromBigInt(y)))
+	}
+	r := f.e.Deliver(ltypes.NewMsgCreateRangedPool(app, f.e.Users[actor(creator)], pair.Id, coins, mn, mx, init))
+	if !r.OK {
+		return ltypes.Pool{}, r
+	}
+	return f.lastPool(app), r
+}
+
+func (f *kfix) createPool(creator int, x, y *big.Int) (ltypes.Pool, sim.Result) {
+	return f.createPoolIn(f.appID, f.pair, creator, x, y)
 }
 
 func (f *kfix) createRanged(creator int, x, y *big.Int, mn, mx, init sdkmath.LegacyDec) (ltypes.Pool, sim.Result) {
-	coins := sdk.Coins{}
-	if x.Sign() > 0 {
-		coins = coins.Add(sdk.NewCoin(quoteDenom, sdkmath.NewIntFromBigInt(x)))
-	}
-	if y.Sign() > 0 {
-		coins = coins.Add(sdk.NewCoin(baseDenom, sdkmath.NewIntFromBigInt(y)))
-	}
-	r := f.e.Deliver(ltypes.NewMsgCreateRangedPool(f.appID, f.e.Users[actor(creator)], f.pair.Id, coins, mn, mx, init))
-	if !r.OK {
-		return ltypes.Pool{}, r
-	}
-	id := f.e.App.LiquidityKeeper.GetLastPoolID(f.e.Ctx, f.appID)
-	p, _ := f.e.App.LiquidityKeeper.GetPool(f.e.Ctx, f.appID, id)
-	return p, r
+	return f.createRangedIn(f.appID, f.pair, creator, x, y, mn, mx, init)
 }
 
-func (f *kfix) limitOrder(who int, dir ramm.OrderDirection, price sdkmath.LegacyDec, amt sdkmath.Int) sim.Result {
+// limitOrderIn: MsgLimitOrder in (app, pair) with the coins of that pair.
+func (f *kfix) limitOrderIn(app uint64, pair ltypes.Pair, who int, dir ramm.OrderDirection, price sdkmath.LegacyDec, amt sdkmath.Int) sim.Result {
+	return f.limitOrderRaw(app, pair.Id, pair.BaseCoinDenom, pair.QuoteCoinDenom, who, dir, price, amt)
+}
+
+// limitOrderRaw lets the driver name any (app, pair id, denoms) combination - also inconsistent ones (adversarial attempts).
+func (f *kfix) limitOrderRaw(app, pairID uint64, base, quote string, who int, dir ramm.OrderDirection, price sdkmath.LegacyDec, amt sdkmath.Int) sim.Result {
 	var offer sdk.Coin
 	var demand string
 	d := ltypes.OrderDirectionBuy
 	if dir == ramm.Buy {
-		offer = sdk.NewCoin(quoteDenom, ramm.OfferCoinAmount(ramm.Buy, price, amt))
-		demand = baseDenom
+		offer = sdk.NewCoin(quote, ramm.OfferCoinAmount(ramm.Buy, price, amt))
+		demand = base
 	} else {
 		d = ltypes.OrderDirectionSell
-		offer = sdk.NewCoin(baseDenom, amt)
-		demand = quoteDenom
+		offer = sdk.NewCoin(base, amt)
+		demand = quote
 	}
 	// room for the swap fee (whatever is not needed is never taken from the orderer)
 	offer.Amount = offer.Amount.Add(offer.Amount.QuoRaw(50)).AddRaw(10)
-	return f.e.Deliver(ltypes.NewMsgLimitOrder(f.appID, f.e.Users[actor(who)], f.pair.Id, d, offer, demand, price, amt, 10*time.Hour))
+	return f.e.Deliver(ltypes.NewMsgLimitOrder(app, f.e.Users[actor(who)], pairID, d, offer, demand, price, amt, 10*time.Hour))
+}
+
+func (f *kfix) limitOrder(who int, dir ramm.OrderDirection, price sdkmath.LegacyDec, amt sdkmath.Int) sim.Result {
+	return f.limitOrderIn(f.appID, f.pair, who, dir, price, amt)
 }
 
 // ---------------------------------------------------------------------------------------------------
@@ -161,79 +211,91 @@ type liveOrder struct {
 	demand *big.Int // orderer's balance of the demand coin before the batch ends
 }
 
-func (f *kfix) liveOrders() []liveOrder {
-	var out []liveOrder
-	for _, o := range f.e.App.LiquidityKeeper.GetOrdersByPair(f.e.Ctx, f.appID, f.pair.Id) {
-		switch o.Status {
-		case ltypes.OrderStatusNotExecuted, ltypes.OrderStatusNotMatched, ltypes.OrderStatusPartiallyMatched:
-			out = append(out, liveOrder{o: o, demand: f.bal(o.GetOrderer(), o.ReceivedCoin.Denom)})
-		}
-	}
-	return out
+type resv struct{ x, y *big.Int }
+
+// pairSnap: everything of one pair that is needed to describe what the end of the batch did to it.
+type pairSnap struct {
+	f          *kfix
+	pair       ltypes.Pair
+	pools      []ltypes.Pool
+	before     []liveOrder
+	pairBefore ltypes.Pair
+	rb         []resv
+	dustAddr   sdk.AccAddress
+	dustBefore *big.Int
+	escB0      *big.Int
+	escQ0      *big.Int
+	tp         int
 }
 
-// endBatchNode ends the batch and records one Match node: per order offer/paid/open from the stored order records,
-// received from the orderer's real balance; the pool as one pseudo order from its reserve balances.
-func (f *kfix) endBatchNode(lg *sim.Log, parent int, run string, args map[string]interface{}, pools []ltypes.Pool) int {
+func (f *kfix) snapPair(pair ltypes.Pair, pools []ltypes.Pool) *pairSnap {
 	k := f.e.App.LiquidityKeeper
-	before := f.liveOrders()
-	pairBefore, _ := k.GetPair(f.e.Ctx, f.appID, f.pair.Id)
-	type resv struct{ x, y *big.Int }
-	var rb []resv
-	for _, p := range pools {
-		rb = append(rb, resv{f.bal(p.GetReserveAddress(), quoteDenom), f.bal(p.GetReserveAddress(), baseDenom)})
+	s := &pairSnap{f: f, pair: pair, pools: pools}
+	for _, o := range k.GetOrdersByPair(f.e.Ctx, pair.AppId, pair.Id) {
+		switch o.Status {
+		case ltypes.OrderStatusNotExecuted, ltypes.OrderStatusNotMatched, ltypes.OrderStatusPartiallyMatched:
+			s.before = append(s.before, liveOrder{o: o, demand: f.bal(o.GetOrderer(), o.ReceivedCoin.Denom)})
+		}
 	}
-	params, _ := k.GetGenericParams(f.e.Ctx, f.appID)
-	dustAddr, _ := sdk.AccAddressFromBech32(params.DustCollectorAddress)
-	dustBefore := f.bal(dustAddr, quoteDenom)
-	escB0, escQ0 := f.bal(f.pair.GetEscrowAddress(), baseDenom), f.bal(f.pair.GetEscrowAddress(), quoteDenom)
+	s.pairBefore, _ = k.GetPair(f.e.Ctx, pair.AppId, pair.Id)
+	for _, p := range pools {
+		s.rb = append(s.rb, resv{f.bal(p.GetReserveAddress(), pair.QuoteCoinDenom), f.bal(p.GetReserveAddress(), pair.BaseCoinDenom)})
+	}
+	params, _ := k.GetGenericParams(f.e.Ctx, pair.AppId)
+	s.tp = int(params.TickPrecision)
+	s.dustAddr, _ = sdk.AccAddressFromBech32(params.DustCollectorAddress)
+	s.dustBefore = f.bal(s.dustAddr, pair.QuoteCoinDenom)
+	s.escB0, s.escQ0 = f.bal(pair.GetEscrowAddress(), pair.BaseCoinDenom), f.bal(pair.GetEscrowAddress(), pair.QuoteCoinDenom)
+	return s
+}
 
-	panicked, ps := f.endBatch()
-
-	pairAfter, _ := k.GetPair(f.e.Ctx, f.appID, f.pair.Id)
-	r := result{mode: "kfull", tp: int(params.TickPrecision), poolKind: "none", diff: new(big.Int), panicked: panicked, panicS: ps}
-	if pairBefore.LastPrice != nil {
-		r.hasLast, r.last = true, *pairBefore.LastPrice
+// result: per order offer/paid/open from the stored order records, received from the orderer's real balance;
+// each pool as one pseudo order from its reserve balances (all in the pair's OWN denoms, as the fixture knows them).
+func (s *pairSnap) result(panicked bool, ps string) result {
+	f, pair := s.f, s.pair
+	k := f.e.App.LiquidityKeeper
+	pairAfter, _ := k.GetPair(f.e.Ctx, pair.AppId, pair.Id)
+	r := result{mode: "kfull", tp: s.tp, poolKind: "none", diff: new(big.Int), panicked: panicked, panicS: ps}
+	if s.pairBefore.LastPrice != nil {
+		r.hasLast, r.last = true, *s.pairBefore.LastPrice
 	}
 	anyFill := false
-	for _, b := range before {
-		a, found := k.GetOrder(f.e.Ctx, f.appID, f.pair.Id, b.o.Id)
+	for _, b := range s.before {
+		a, found := k.GetOrder(f.e.Ctx, pair.AppId, pair.Id, b.o.Id)
 		dir := ramm.Buy
 		if b.o.Direction == ltypes.OrderDirectionSell {
 			dir = ramm.Sell
 		}
 		ro := resOrder{dir: dir, price: b.o.Price, amt: b.o.OpenAmount.BigInt(), offer: b.o.RemainingOfferCoin.Amount.BigInt(),
-			paid: new(big.Int), recv: new(big.Int), open: b.o.OpenAmount.BigInt(), fills: -1, old: b.o.BatchId < pairBefore.CurrentBatchId}
+			paid: new(big.Int), recv: new(big.Int), open: b.o.OpenAmount.BigInt(), fills: -1, old: b.o.BatchId < s.pairBefore.CurrentBatchId}
 		if found {
 			ro.paid = new(big.Int).Sub(b.o.RemainingOfferCoin.Amount.BigInt(), a.RemainingOfferCoin.Amount.BigInt())
 			ro.open = a.OpenAmount.BigInt()
 		}
 		ro.recv = new(big.Int).Sub(f.bal(b.o.GetOrderer(), b.o.ReceivedCoin.Denom), b.demand)
-		if ro.open.Cmp(ro.amt) != 0 {
+		if ro.open.Cmp(ro.amt) != 0 || ro.recv.Sign() != 0 {
 			anyFill = true
 		}
 		r.orders = append(r.orders, ro)
 	}
-	for i, p := range pools {
-		dx := new(big.Int).Sub(f.bal(p.GetReserveAddress(), quoteDenom), rb[i].x)
-		dy := new(big.Int).Sub(f.bal(p.GetReserveAddress(), baseDenom), rb[i].y)
+	poolIDs := []interface{}{}
+	for i, p := range s.pools {
+		poolIDs = append(poolIDs, p.Id)
+		dx := new(big.Int).Sub(f.bal(p.GetReserveAddress(), pair.QuoteCoinDenom), s.rb[i].x)
+		dy := new(big.Int).Sub(f.bal(p.GetReserveAddress(), pair.BaseCoinDenom), s.rb[i].y)
 		if dx.Sign() == 0 && dy.Sign() == 0 {
 			continue
 		}
 		anyFill = true
-		kind := "basic"
-		if p.Type == ltypes.PoolTypeRanged {
-			kind = "ranged"
-		}
-		r.poolKind = kind
+		r.poolKind = kindOf(p)
 		// the pool bought base (dy > 0, paid quote) or sold base (dy < 0, received quote)
 		ro := resOrder{price: sdkmath.LegacyZeroDec(), fills: -1, pool: true, open: new(big.Int)}
 		if dy.Sign() >= 0 {
 			ro.dir, ro.amt, ro.recv, ro.paid = ramm.Buy, new(big.Int).Set(dy), new(big.Int).Set(dy), new(big.Int).Neg(dx)
-			ro.offer = new(big.Int).Set(rb[i].x)
+			ro.offer = new(big.Int).Set(s.rb[i].x)
 		} else {
 			ro.dir, ro.amt, ro.paid, ro.recv = ramm.Sell, new(big.Int).Neg(dy), new(big.Int).Neg(dy), new(big.Int).Set(dx)
-			ro.offer = new(big.Int).Set(rb[i].y)
+			ro.offer = new(big.Int).Set(s.rb[i].y)
 		}
 		r.orders = append(r.orders, ro)
 	}
@@ -241,15 +303,23 @@ func (f *kfix) endBatchNode(lg *sim.Log, parent int, run string, args map[string
 	if pairAfter.LastPrice != nil && anyFill {
 		r.mp = *pairAfter.LastPrice
 	}
-	dust := new(big.Int).Sub(f.bal(dustAddr, quoteDenom), dustBefore)
+	dust := new(big.Int).Sub(f.bal(s.dustAddr, pair.QuoteCoinDenom), s.dustBefore)
 	r.diff = dust
-	escB1, escQ1 := f.bal(f.pair.GetEscrowAddress(), baseDenom), f.bal(f.pair.GetEscrowAddress(), quoteDenom)
+	escB1, escQ1 := f.bal(pair.GetEscrowAddress(), pair.BaseCoinDenom), f.bal(pair.GetEscrowAddress(), pair.QuoteCoinDenom)
 	r.extra = map[string]interface{}{
-		"escrowBaseDelta":  new(big.Int).Sub(escB1, escB0).String(),
-		"escrowQuoteDelta": new(big.Int).Sub(escQ1, escQ0).String(),
+		"escrowBaseDelta":  new(big.Int).Sub(escB1, s.escB0).String(),
+		"escrowQuoteDelta": new(big.Int).Sub(escQ1, s.escQ0).String(),
 		"dustCollected":    dust.String(),
+		"appId":            pair.AppId, "pairId": pair.Id, "poolIds": poolIDs,
 	}
-	return lg.Add(parent, run, "EndBatch", args, map[string]interface{}{"panic": panicked}, r.node())
+	return r
+}
+
+// endBatchNode ends the batch and records one EndBatch node for the pair under test.
+func (f *kfix) endBatchNode(lg *sim.Log, parent int, run string, args map[string]interface{}, pools []ltypes.Pool) int {
+	s := f.snapPair(f.pair, pools)
+	panicked, ps := f.endBatch()
+	return lg.Add(parent, run, "EndBatch", args, map[string]interface{}{"panic": panicked}, s.result(panicked, ps).node())
 }
 
 func keeperMatch(lg *sim.Log, seed int64, n int) int {
@@ -281,22 +351,26 @@ func keeperMatch(lg *sim.Log, seed int64, n int) int {
 		tp := int(ltypes.DefaultTickPrecision)
 		centre := dec(centres[rng.Intn(len(centres))])
 		ci := ramm.TickToIndex(ramm.PriceToDownTick(centre, tp), tp)
-		var pools []ltypes.Pool
-		desc := map[string]interface{}{"centre": centre.String(), "pool": "none"}
-		switch rng.Intn(4) {
-		case 0:
+		// pools: the pair under test gets pool 1 (id != pair id != app id); the second pair of the app gets pool 2
+		var pools, sidePools []ltypes.Pool
+		desc := map[string]interface{}{"centre": centre.String(), "pool": "none", "sidePool": "none"}
+		reserves := func() (*big.Int, *big.Int) {
 			y := big.NewInt(int64(2000000 + rng.Intn(30000000)))
 			x := centre.MulInt(sdkmath.NewIntFromBigInt(y)).TruncateInt().BigInt()
 			if x.Cmp(big.NewInt(1000000)) < 0 {
 				x = big.NewInt(1000000)
 			}
+			return x, y
+		}
+		switch rng.Intn(4) {
+		case 0:
+			x, y := reserves()
 			if p, r := f.createPool(0, x, y); r.OK {
 				pools = append(pools, p)
 				desc["pool"] = "basic"
 			}
 		case 1:
-			y := big.NewInt(int64(2000000 + rng.Intn(30000000)))
-			x := centre.MulInt(sdkmath.NewIntFromBigInt(y)).TruncateInt().BigInt()
+			x, y := reserves()
 			mn := ramm.TickFromIndex(ci-2000-rng.Intn(3000), tp)
 			mx := ramm.TickFromIndex(ci+2000+rng.Intn(3000), tp)
 			if p, r := f.createRanged(0, x, y, mn, mx, ramm.PriceToDownTick(centre, tp)); r.OK {
@@ -304,50 +378,101 @@ func keeperMatch(lg *sim.Log, seed int64, n int) int {
 				desc["pool"] = "ranged"
 			}
 		}
+		twoPairs := rng.Intn(2) == 0
+		if twoPairs && rng.Intn(2) == 0 {
+			x, y := reserves()
+			if p, r := f.createPoolIn(f.appID, f.side, 0, x, y); r.OK {
+				sidePools = append(sidePools, p)
+				desc["sidePool"] = "basic"
+			}
+		}
 		root := lg.Add(0, run, "Init", desc, nil, initMatchNode())
 		nodes++
-		parent := root
+		parent, sideParent := root, root
 		who := 1
 		batches := 2 + rng.Intn(3)
 		for b := 0; b < batches; b++ {
-			no := 1 + rng.Intn(6)
-			placed := []interface{}{}
-			for i := 0; i < no && who < nActors; i++ {
-				dir := ramm.Buy
-				if rng.Intn(2) == 0 {
-					dir = ramm.Sell
-				}
-				off := rng.Intn(9) - 4
-				if rng.Intn(3) == 0 {
-					off *= 20
-				}
-				price := ramm.TickFromIndex(ci+off, tp)
-				if pr, _ := f.e.App.LiquidityKeeper.GetPair(f.e.Ctx, f.appID, f.pair.Id); pr.LastPrice != nil {
-					lo, hi := ltypes.PriceLimits(*pr.LastPrice, ltypes.DefaultMaxPriceLimitRatio, tp)
-					if price.LT(lo) {
-						price = lo
+			place := func(pair ltypes.Pair, no int) []interface{} {
+				placed := []interface{}{}
+				for i := 0; i < no && who < attacker; i++ {
+					dir := ramm.Buy
+					if rng.Intn(2) == 0 {
+						dir = ramm.Sell
 					}
-					if price.GT(hi) {
-						price = hi
+					off := rng.Intn(9) - 4
+					if rng.Intn(3) == 0 {
+						off *= 20
 					}
+					price := ramm.TickFromIndex(ci+off, tp)
+					if pr, _ := f.e.App.LiquidityKeeper.GetPair(f.e.Ctx, pair.AppId, pair.Id); pr.LastPrice != nil {
+						lo, hi := ltypes.PriceLimits(*pr.LastPrice, ltypes.DefaultMaxPriceLimitRatio, tp)
+						if price.LT(lo) {
+							price = lo
+						}
+						if price.GT(hi) {
+							price = hi
+						}
+					}
+					var amt int64
+					switch rng.Intn(4) {
+					case 0:
+						amt = int64(100 + rng.Intn(300))
+					case 1:
+						amt = int64(100 + rng.Intn(3000))
+					case 2:
+						amt = int64(1000 + rng.Intn(200000))
+					default:
+						amt = int64(200 + rng.Intn(2500))
+					}
+					r := f.limitOrderIn(pair.AppId, pair, who, dir, price, sdkmath.NewInt(amt))
+					placed = append(placed, map[string]interface{}{"who": actor(who), "dir": dir.String(), "price": price.String(), "amt": amt, "ok": r.OK})
+					who++
 				}
-				var amt int64
+				return placed
+			}
+			placed := place(f.pair, 1+rng.Intn(6))
+			var sidePlaced []interface{}
+			if twoPairs {
+				sidePlaced = place(f.side, 1+rng.Intn(4))
+			}
+			// adversarial attempts: orders that name a pair / app / coin they do not belong to. Whatever is accepted
+			// takes part in the batch like any other order.
+			foreign, foreignOK := 0, 0
+			if who < attacker-1 {
+				price := ramm.TickFromIndex(ci, tp)
+				amt := sdkmath.NewInt(int64(150 + rng.Intn(900)))
+				var r sim.Result
 				switch rng.Intn(4) {
-				case 0:
-					amt = int64(100 + rng.Intn(300))
-				case 1:
-					amt = int64(100 + rng.Intn(3000))
-				case 2:
-					amt = int64(1000 + rng.Intn(200000))
-				default:
-					amt = int64(200 + rng.Intn(2500))
+				case 0: // the foreign app does not have pair 3
+					r = f.limitOrderRaw(f.otherApp, f.pair.Id, baseDenom, quoteDenom, who, ramm.Buy, price, amt)
+				case 1: // pair under test, paid with the coin of another pair
+					r = f.limitOrderRaw(f.appID, f.pair.Id, baseDenom, thirdDenom, who, ramm.Buy, price, amt)
+				case 2: // pair 1 of the app (ubase/uthird) named with the coins of pair 3
+					r = f.limitOrderRaw(f.appID, f.side.Id, baseDenom, quoteDenom, who, ramm.Sell, price, amt)
+				default: // pair 2 of the app (uthird/uquote) asked to sell ubase
+					r = f.limitOrderRaw(f.appID, f.decoy.Id, baseDenom, quoteDenom, who, ramm.Sell, price, amt)
 				}
-				r := f.limitOrder(who, dir, price, sdkmath.NewInt(amt))
-				placed = append(placed, map[string]interface{}{"who": actor(who), "dir": dir.String(), "price": price.String(), "amt": amt, "ok": r.OK})
+				foreign++
+				if r.OK {
+					foreignOK++
+				}
 				who++
 			}
-			parent = f.endBatchNode(lg, parent, run, map[string]interface{}{"batch": b + 1, "placed": placed}, pools)
+			ms := f.snapPair(f.pair, pools)
+			var ss *pairSnap
+			if twoPairs {
+				ss = f.snapPair(f.side, sidePools)
+			}
+			panicked, ps := f.endBatch()
+			mr := ms.result(panicked, ps)
+			mr.extra["foreignAttempts"], mr.extra["foreignAccepted"] = foreign, foreignOK
+			parent = lg.Add(parent, run, "EndBatch", map[string]interface{}{"batch": b + 1, "placed": placed}, map[string]interface{}{"panic": panicked}, mr.node())
 			nodes++
+			if ss != nil {
+				sr := ss.result(panicked, ps)
+				sideParent = lg.Add(sideParent, run, "EndBatch", map[string]interface{}{"batch": b + 1, "placed": sidePlaced, "pair": "side"}, map[string]interface{}{"panic": panicked}, sr.node())
+				nodes++
+			}
 			f.beginNext(6 * time.Second)
 		}
 	}
